@@ -106,6 +106,21 @@ def run(ctx):
                 imp = I["imp"].ShapleyImportance(method="neighbor", utility=None)
                 imp.fit(np.zeros((n_rows, 2)), np.zeros(n_rows, dtype=int))
                 res = table_of(imp.provenance, n_units)
+                if res == want and n_rows >= 2:
+                    # the caller edits / shrinks the provenance object this fit handed out; the default provenance of ANY later fit of a same-sized
+                    # training set (this object or another one) must again be one row per unit
+                    pr = imp.provenance
+                    pr[0] = pr[n_rows - 1]
+                    if rng.random() < 0.5:
+                        del pr[n_rows - 1]
+                    imp_b = I["imp"].ShapleyImportance(method="neighbor", utility=None)
+                    imp_b.fit(np.ones((n_rows, 2)), np.zeros(n_rows, dtype=int))
+                    res_b = table_of(imp_b.provenance, n_units)
+                    imp.fit(np.ones((n_rows, 2)), np.zeros(n_rows, dtype=int))
+                    res_c = table_of(imp.provenance, n_units)
+                    if res_b != want or res_c != want:
+                        case = dict(case, sequence="fit; edit the resulting default provenance in place; fit again without provenance")
+                        res = res_b if res_b != want else res_c
             except Exception as e:  # noqa
                 res = exc_name(e)
             model = ctx.model({"op": "history", "prov": {"nUnits": n_units, "default": True}, "ops": [{"op": "table"}]})
